@@ -1376,9 +1376,7 @@ void AbstractDOMParser::doctypeComment
         if (comment != 0)
         {
             fInternalSubset.append(XMLUni::fgCommentString);
-            fInternalSubset.append(chSpace);
             fInternalSubset.append(comment);
-            fInternalSubset.append(chSpace);
             fInternalSubset.append(chDash);
             fInternalSubset.append(chDash);
             fInternalSubset.append(chCloseAngle);
